@@ -309,3 +309,28 @@ Proof. exact fit_recovers_coefficients_composed. Qed.
 Theorem C14_example_composed :
   has_distinct 2 [0; 1; 2] /\ fit RO (slice_invert RO) 2 [0; 1; 2] [1; 3; 5] = Some [1; 2].
 Proof. exact (conj has_distinct_012 fit_line_composed). Qed.
+
+(** ** Tie A: the model IS the source (regenerated from /repo/src/predict/polynomial.rs on every run by
+    tools/tiea/poly_loops.py).  [src_*] is the method translated statement for statement; the field [coef] of [self] is the
+    first argument and a [&mut self] method returns the field after the call.  The routines of other files called by [fit]
+    are abstract parameters of the generated text, instantiated by their models: [vandermonde_z] = [vandermonde]
+    (C15_model_is_source_vandermonde), [xtx_z] = [xtx] and [matmul_z] = [matmul] (C05_model_is_source_xtx / _matmul), and
+    [inv] = [invert_matrix], in which the model is parametric as well (any function). *)
+From Coq Require Import ZArith.
+From Compute Require Import Base.RsExpr Base.RsExprMut Generated.poly_loops Proofs.TieA_poly_loops.
+Local Close Scope R_scope.
+Theorem C14_model_is_source_fit :
+  forall (T : Type) (O : Ops T) (inv : list T -> option (list T)) (coef x y : list T),
+    src_fit O (vandermonde_z O) (xtx_z O) inv (matmul_z O) coef x y = fit O inv (length coef) x y.
+Proof. exact @tiea_poly_fit. Qed.
+Theorem C14_model_is_source_predict :
+  forall (T : Type) (O : Ops T) (coef x : list T), src_predict O coef x = predict O coef x.
+Proof. exact @tiea_poly_predict. Qed.
+Theorem C14_model_is_source_update :
+  forall (T : Type) (O : Ops T) (coef params : list T), src_update O coef params = params.
+Proof. exact @tiea_poly_update. Qed.
+(** the constructor: [deg + 1] zeros (below the allocation limit of 2^60 - 1 cells) *)
+Theorem C14_model_is_source_new :
+  forall (T : Type) (O : Ops T) (deg : nat), (Z.of_nat (deg + 1) <= 1152921504606846975)%Z ->
+    src_new O (Z.of_nat deg) = Some (new O deg).
+Proof. exact @tiea_poly_new. Qed.
